@@ -28,6 +28,7 @@ func RegisterAll() {
 	run.Register(&c04{})
 	run.Register(&c05{})
 	run.Register(&c06{})
+	run.Register(&c07{})
 	run.Register(&c12{})
 }
 
@@ -182,3 +183,5 @@ func mustJSON(v any) json.RawMessage {
 	}
 	return b
 }
+
+func pick[T any](r *rand.Rand, xs []T) T { return xs[r.Intn(len(xs))] }
